@@ -142,6 +142,7 @@ func c06History(c *vc.Ctx, idx int) {
 		c.Violation("block processing failed during a hand-over history", cr.Error(), lh.replay())
 	}
 	b := newBridgeHist(lh)
+	b.depositBurst = true
 	wm := newWdMon(b)
 	m := &c06Mon{b: b, wm: wm, owed: map[string][]owedItem{}, delivered: map[string]int{}, nonce: map[uint8]uint64{}, unlockSeen: map[uint64]bool{}}
 	// ---- owed log, from the generator's ground truth ----
@@ -207,6 +208,14 @@ func c06History(c *vc.Ctx, idx int) {
 		} else {
 			c05Gen(wm, blk, cfg.Blocks, idx, addrPool)
 			c03Gen(b, blk, muts)
+		}
+		// a burst of withdrawals to undecodable addresses: more refunds at once than one block may hand over
+		if blk%17 == 9 && blk < cfg.Blocks-25 {
+			for k := 0; k < 9+r.Intn(4); k++ {
+				b.bridgeReq.Withdraws = append(b.bridgeReq.Withdraws, &goattypes.WithdrawalRequest{Id: wm.next, Amount: 40_000, TxPrice: 3, Address: fmt.Sprintf("junk-%d", wm.next)})
+				wm.next++
+			}
+			lh.logf("EL: burst of withdrawals to undecodable addresses")
 		}
 		// ---- abandoned rounds: proposals that are prepared (and processed) but never finalised ----
 		if blk%4 == 1 {
